@@ -57,7 +57,7 @@ var vfC15Scenarios = []string{
 	"genuine", "challenge-dropped", "response-late", "response-from-third-address", "forged-response-wrong-cookie",
 	"forged-response-guess-before-challenge", "replayed-record-from-new-address", "stale-record-from-new-address",
 	"garbage-from-new-address", "two-candidates-one-answers", "genuine-then-back", "observed-writes-during-validation",
-	"altered-cid", "many-small-records-from-new-address", "response-late-with-keepalives", "stale-epoch-record-from-new-address",
+	"altered-cid", "many-small-records-from-new-address", "response-late-with-keepalives", "stale-epoch-record-from-new-address", "first-record-of-epoch-late-from-new-address",
 }
 
 // vfInstallRRCStrip removes the return_routability_check extension from the ClientHellos generated for key.
@@ -282,6 +282,31 @@ func vfC15Run(t *testing.T, res *vfResult, c vfC15Case) {
 	if !c.RRC {
 		vfInstallRRCStrip(p.C.Conn.handshakeConfig)
 		defer vfEdits.Delete(p.C.Conn.handshakeConfig)
+	}
+	// first-record-of-epoch-late (DTLS 1.2): the mover's first transmission of its Finished, record 0 of epoch 1, is held
+	// back by the network; the handshake completes with the retransmission (record 1)
+	var heldFirst []byte
+	if c.Scenario == "first-record-of-epoch-late-from-new-address" && c.Ver == "12" {
+		moverName := map[string]string{"s": "c", "c": "s"}[c.Observed]
+		var hmu sync.Mutex
+		n.SetOnSend(func(n *vfNet, w *vfWire) {
+			hmu.Lock()
+			hold := false
+			if w.From == moverName && heldFirst == nil {
+				if recs, ok := vfParseDatagram(w.Data, len(vfCommon(map[string]*vfSide{"c": p.S, "s": p.C}[moverName].Conn).LocalConnectionID())); ok {
+					for _, rc := range recs {
+						if !rc.Unified && rc.Epoch == 1 && rc.Seq == 0 {
+							heldFirst = append([]byte(nil), w.Data[rc.Off:]...)
+							hold = true
+						}
+					}
+				}
+			}
+			hmu.Unlock()
+			if !hold {
+				n.Deliver(w.Dst, w.Data, vfAddrOf(w.From))
+			}
+		})
 	}
 	if ce, se := p.Handshake(time.Minute); ce != nil || se != nil {
 		res.Count("handshake_failed", 1)
@@ -625,6 +650,52 @@ func vfC15Run(t *testing.T, res *vfResult, c vfC15Case) {
 			w.check("after a record of the previous epoch from a new address")
 			res.Count("stale_epoch_records_from_new_address", 1)
 		}
+		drain(vfAddrB)
+		time.Sleep(2 * time.Second)
+		synctest.Wait()
+		w.check("after settle")
+	case "first-record-of-epoch-late-from-new-address":
+		// record number 0 of the current epoch arrives late, from a new address, after higher numbers of that epoch were
+		// accepted from the active one: authentic, inside the window, not the newest. No challenge, nothing sent there.
+		var older []byte
+		if c.Ver == "12" {
+			older = heldFirst
+		} else {
+			uctx, ucancel := context.WithTimeout(context.Background(), 20*time.Second)
+			done := make(chan error, 1)
+			go func() { done <- w.mov.Conn.UpdateKeys(uctx, KeyUpdateOptions{}) }()
+			for i := 0; i < 8; i++ {
+				synctest.Wait()
+				drain(w.home)
+			}
+			uerr := <-done
+			ucancel()
+			if uerr != nil {
+				res.Count("first_record_update_failed", 1)
+
+				break
+			}
+			write(w.mov, "first-of-epoch")
+			if d := take(); d != nil {
+				d.Delivered++ // held back
+				older = d.Data
+			}
+		}
+		if older == nil {
+			res.Count("first_record_not_captured", 1)
+
+			break
+		}
+		write(w.mov, "newer-1")
+		write(w.mov, "newer-2")
+		drain(w.home)
+		w.mu.Lock()
+		w.recv[vfAddrB] += len(older)
+		w.mu.Unlock()
+		n.Deliver(w.obsAddr, older, vfAddr(vfAddrB))
+		synctest.Wait()
+		w.check("after record 0 of the epoch arrived late from a new address")
+		res.Count("first_records_of_epoch_late_from_new_address", 1)
 		drain(vfAddrB)
 		time.Sleep(2 * time.Second)
 		synctest.Wait()
